@@ -200,6 +200,11 @@ def judge(case, val, out):
         tol = max(EPS, d[0] * 3 * EPS)
         if any(abs(v - tol) <= 1e-6 * tol for v in d):   # fragile rank decision
             return None
+        bigx, bigy = float(np.abs(x).max()), float(np.abs(y).max())
+        noise = 1e3 * EPS * (bigx * sy + bigy * sx + sx * sy)   # rounding of the centred covariance, 1000x margin
+        if tp and d[1] > noise and d[1] > 1e-6 * d[0]:
+            return _sv("a point-set pair that clearly determines a rotation (singular values %r of the covariance, rounding "
+                       "noise below %.3g) was refused: %s" % (d, noise, out["refused"]))
         return _mv("implementation refused, model returns a result")
     r, t, c = [unhex(a) for a in out["r"]], [unhex(a) for a in out["t"]], unhex(out["c"])
     # ---- correspondence with the model (same SVD answer)
